@@ -1,0 +1,40 @@
+//go:build verif
+
+// Contracts for package check (machine-checked by /verif/engine; comment-only file).
+//
+// Abstract state of the checker: open = dom(ch.accounts); qty(a, c) = ch.quantities[Key{Account: a,
+// Commodity: c}] (zero if absent). The postconditions are taken from the statement of property C04.
+package check
+
+//@ def isAL(a *account.Account) bool := a.accountType == 0 || a.accountType == 1
+//@ def pos(a *account.Account, c *commodity.Commodity) amounts.Key := amounts.Key{Account: a, Commodity: c}
+//@ def qty(ch *Checker, a *account.Account, c *commodity.Commodity) real := ch.quantities[pos(a, c)]
+//@ def wfChecker(ch *Checker) bool := ch.accounts != nil && ch.quantities != nil && !(nil in ch.accounts)
+//
+// open: accepted iff the account is not open yet; on success exactly that account becomes open.
+//@ func (*Checker).open
+//@   requires wfChecker(ch) && o != nil && o.Account != nil
+//@   modifies ch.accounts[*]
+//@   ensures @iff: result == nil <==> !old(o.Account in ch.accounts)
+//@   ensures @succ: result == nil ==> dom(ch.accounts) == upd(old(dom(ch.accounts)), o.Account, true)
+//@   ensures @fail: result != nil ==> dom(ch.accounts) == old(dom(ch.accounts))
+//@   ensures wfChecker(ch)
+//
+// posting: accepted iff the account is open; asset/liability quantities are accumulated.
+//@ func (*Checker).posting
+//@   requires wfChecker(ch) && p != nil
+//@   modifies ch.quantities[*]
+//@   ensures @iff: result == nil <==> old(p.Account in ch.accounts)
+//@   ensures @al: result == nil && isAL(p.Account) ==> dom(ch.quantities) == upd(old(dom(ch.quantities)), pos(p.Account, p.Commodity), true)
+//@        && vals(ch.quantities) == upd(old(vals(ch.quantities)), pos(p.Account, p.Commodity), old(qty(ch, p.Account, p.Commodity)) + p.Quantity)
+//@   ensures @other: result != nil || !isAL(p.Account) ==> dom(ch.quantities) == old(dom(ch.quantities)) && vals(ch.quantities) == old(vals(ch.quantities))
+//@   ensures wfChecker(ch)
+//
+// balance: accepted iff the account is open and, for an asset/liability account (unless checking is
+// switched off), the asserted quantity equals the running quantity (zero if there never was one).
+//@ func (*Checker).balance
+//@   requires wfChecker(ch) && bal != nil && bal.Commodity != nil
+//@   ensures @open: result == nil ==> (bal.Account in ch.accounts)
+//@   ensures @al: (bal.Account in ch.accounts) && isAL(bal.Account) && !ch.NoCheck ==> (result == nil <==> qty(ch, bal.Account, bal.Commodity) == bal.Quantity)
+//@   ensures @nocheck: (bal.Account in ch.accounts) && ch.NoCheck ==> result == nil
+//@   ensures @other: (bal.Account in ch.accounts) && !isAL(bal.Account) ==> result == nil
